@@ -103,8 +103,9 @@ class Compiler:
                             # Bring the current address forward
                             def closure(insn):
                                 nonlocal data, addr
+                                old_addr = addr
                                 def fn():
-                                    old_addr_value = wait(addr)
+                                    old_addr_value = wait(old_addr)
                                     new_addr_value = get_as_int(state, "link address", state["insn"], insn.value, bitness=16, unsigned=False)
                                     length = new_addr_value - old_addr_value
                                     if length < 0:
